@@ -276,6 +276,21 @@ def text_docs():
         tb.mark().word(b"last").op().open("O").kv(b"a", b"b").mark().word(b"c").op().quoted(b"d e").raw(b" ").close().mark()
         n = len(tb.out)
         add("fields", tb, cuts="all" if N <= 9 else None, radius=5, extra=[n - j for j in (range(26) if N <= 4097 else (0, 1, 2, 3, 4, 6, 8, 12, 13, 15, 18, 22))])
+    # TAPE INDEX of the container being cut: exactly 65535 / 65536 / 65537 / 131072 (`k=v` is 2 tokens, `e={}` 3, the key of the container 1)
+    for idx in (65535, 65536, 65537, 131072):
+        tb = TB()
+        n = 1
+        if idx % 2 == 0:
+            tb.word(b"e").op().open("A").close().raw(b"\n")
+            n += 3
+        i = 0
+        while n < idx:
+            tb.word(b"k%d" % i).op().word(b"v").raw(b"\n")
+            n += 2; i += 1
+        tb.mark().word(b"last").op().open("O")
+        assert len(tb.tape) - 1 == idx
+        tb.kv(b"a", b"b").mark().word(b"c").op().word(b"d").raw(b" ").mark().close().mark()
+        add("tapeidx", tb, radius=1)
     # COUNT of fields inside the container being cut (object: auto-closed with N fields; array: never accepted)
     for N in lad(4097):
         tb = TB().kv(b"p", b"q").word(b"o").op().open("O" if N else "A").mark()          # `{}` is an empty array on the tape
@@ -596,6 +611,21 @@ def bin_docs():
                 bb.mark()
         bb.mark().tok(("T", 0x2d90)).eq().open(True).tok(("T", 0x2d91)).eq().tok(("Q", b"ab")).close().top().mark()
         add("fields", bb, cuts="all" if N <= 3 else None, radius=6, extra=[len(bb.out) - j for j in (range(20) if N <= 4097 else (0, 1, 2, 3, 4, 6, 8, 10, 12, 14, 16))])
+    # TAPE INDEX of the container being cut: exactly 65535 / 65536 / 65537 / 131072
+    for idx in (65535, 65536, 65537, 131072):
+        bb = BB()
+        n = 1
+        if idx % 2 == 0:
+            bb.tok(("T", 0x2d80)).eq().open(False).close().top()
+            n += 3
+        i = 0
+        while n < idx:
+            bb.field(("T", 0x1000 + (i % 0x8000)), ("I32", i))
+            n += 2; i += 1
+        bb.mark().tok(("T", 0x2d90)).eq().open(True)
+        assert len(bb.tape) - 1 == idx
+        bb.tok(("T", 0x2d91)).eq().tok(("I32", 1)).mark().tok(("T", 0x2d92)).eq().tok(("Q", b"ab")).mark().close().top().mark()
+        add("tapeidx", bb, radius=2)
     for N in lad(4097):
         bb = BB().field(("T", 0x2d82), ("I32", 7)).tok(("T", 0x2d90)).eq().open(False).mark()
         for i in range(N):
@@ -949,7 +979,10 @@ def run_typed(ctx, docs):
             if impl[base + j] == exps[-1]:
                 good.add((g, p))
             else:
-                ctx.count("size_typed_text_skipped_" + tag)
+                # unlike the random documents of props/C19_typed.py these are fixed and plain: every path reads the complete document
+                # as the specification says (0 exceptions on the unchanged code), so a difference is a finding, not a reason to skip
+                ctx.fail("size-typed-text-complete", "%s path on the COMPLETE %s document of %d bytes (%s...), target %s, returned %s; the specification gives %s"
+                         % (p, tag, len(data), data[:30], shs[:80], impl[base + j][:160], exps[-1][:160]), [tcases[j]], [impl[base + j][:4000]], exps[-1][:4000])
     for j, (g, k, p) in enumerate(tmeta):
         o = impl[base + j]
         tag, doc, data, spans, exps, shs = tgroups[g]
@@ -978,16 +1011,19 @@ def run_typed(ctx, docs):
             if impl[base + j] == exps[-1]:
                 good.add((g, p))
             else:
-                ctx.count("size_typed_bin_skipped_" + tag)
+                ctx.fail("size-typed-bin-complete", "%s path on the COMPLETE %s document of %d bytes (%s...), target %s, returned %s; the specification gives %s"
+                         % (p, tag, len(data), data[:16].hex(), shs[:80], impl[base + j][:160], exps[-1][:160]), [bcases[j]], [impl[base + j][:4000]], exps[-1][:4000])
     for j, (g, k, p) in enumerate(bmeta):
         o = impl[base + j]
         tag, doc, data, bounds, exps, shs = bgroups[g]
         what = "%s path, %s document of %d bytes (%s...), target %s, cut at %d" % (p, tag, len(data), data[:16].hex(), shs[:80], k)
         if o in CRASH:
             ctx.fail("size-typed-bin-crash", "%s: %s" % (what, o), [bcases[j]], [o]); continue
-        if o.startswith("ERR") or (g, p) not in good:
+        if o.startswith("ERR"):
             continue
         n = bounds.get(k, bounds.get(k - 1))
+        if (g, p) not in good and n is not None:
+            continue          # no reference value for this path (reported above); the acceptance rule below needs none
         if n is None:
             ctx.fail("size-typed-bin-accepted", "%s (inside a container / payload / between a key and the end of its value) accepted as %s" % (what, o[:160]), [bcases[j]], [o[:4000]], "an error")
         elif o != exps[n]:
